@@ -132,8 +132,9 @@ class Contract:
     def __init__(self, module, file, qual, params, ret=None, yields=None, requires=(), ensures=(), raises=None,
                  raises_ensures=None, locals=None, loops=None, calls=None, globals=None, modifies=(), defaults=None,
                  ignore_kwargs=False, star=None, exc_parents=None, comp_types=None, canaries=(), properties=(),
-                 trusted=False, note="", receiver_classes=None, use=(), inputs=None, native_fn=None, shards=1, native_frame_skip=(), callable_recv=False, no_library=False, cursors=None):
+                 trusted=False, note="", receiver_classes=None, use=(), inputs=None, native_fn=None, shards=1, native_frame_skip=(), callable_recv=False, no_library=False, cursors=None, index_map_type=None):
         self.no_library = no_library
+        self.index_map_type = index_map_type
         self.cursors = dict(cursors or {})
         self.callable_recv = callable_recv
         self.shards = shards
